@@ -68,6 +68,16 @@ func c16Dst(fn int, in []byte, dl, dc int) (grew bool, ok bool, err error) {
 	if !bytes.Equal(out[dl:], baseSnap) {
 		return false, true, fmt.Errorf("%s(len %d cap %d destination) appended %q; with an empty destination it produces %q", f.name, dl, cap(dst), out[dl:], baseSnap)
 	}
+	// what was returned owns its memory: overwriting the input afterwards changes neither result
+	for i := range work {
+		work[i] = 0xAA
+	}
+	if !bytes.Equal(base, baseSnap) {
+		return false, true, fmt.Errorf("%s(input, nil destination): the returned bytes changed when the input was overwritten afterwards (they share memory with the input): %.60q -> %.60q", f.name, baseSnap, base)
+	}
+	if !bytes.Equal(out[dl:], baseSnap) {
+		return false, true, fmt.Errorf("%s(len %d cap %d destination): the returned bytes changed when the input was overwritten afterwards: %.60q -> %.60q", f.name, dl, cap(dst), baseSnap, out[dl:])
+	}
 	return dc-dl < len(baseSnap), true, nil
 }
 
